@@ -1588,12 +1588,13 @@ def patched(rt):
     Task.run = run
     _direct_call = rt.call
     _active_rt = rt
+    old_disable = logging.root.manager.disable
     logging.disable(logging.CRITICAL)
     rt.install_hooks()
     try:
         yield
     finally:
-        logging.disable(logging.NOTSET)
+        logging.disable(old_disable)
         _direct_call = None
         _active_rt = None
         Task.run = old_run
